@@ -174,4 +174,20 @@ PROPS = {
             "are not in the property's list: the model predicts the sharing, the spec oracle does not judge them",
         ],
     },
+    "C09": {
+        "harness": [{"cmd": "c09", "n": {"quick": 700, "thorough": 20000}}],
+        "rule": "all pairs of words over {A,C,G} up to length 3 (quick: a third of them chosen from the seed; thorough: "
+                "up to length 4, all 14 400 pairs) under rotating match/mismatch/affine-gap schemes, plus random DNA / "
+                "IUPAC / protein pairs of length 1-12 (half of them a mutated window of the other with an indel; "
+                "tryptophan-rich proteins so that long gaps pay off) under 8 schemes (DNAfull / BLOSUM62 or "
+                "match-mismatch; open in {-10,-2,-1}, extend in {-1,-1/2}), and the ATG variant; every observable "
+                "(score, both rows, starts, ends, the four counters, inputs after the call) is compared with the model, "
+                "validity by the proved checker, score-soundness and optimality against an independent Gotoh program; "
+                "non-trivial = both sequences of length >= 2; distinct = distinct (pair, scheme, variant)",
+        "nontrivial": lambda m: len(m.get("s1", "")) >= 2 and len(m.get("s2", "")) >= 2,
+        "assumptions": [
+            "all scores are multiples of 1/2 and are carried multiplied by 2 as integers: float64 arithmetic is exact",
+            "optimality is checked per case against the Gotoh oracle (whose own optimality is a kept statement, not proved)",
+        ],
+    },
 }
